@@ -70,7 +70,8 @@ def scalarOfName (s : String) : Option Ty :=
   | "e8u" => some (.enum 8 false) | "e16u" => some (.enum 16 false) | "e32u" => some (.enum 32 false) | "e64u" => some (.enum 64 false)
   | _ => none
 
-def fromSigned (bits : Nat) (neg : Bool) (n : Nat) : Nat := if neg then (2 ^ bits - n % 2 ^ bits) % 2 ^ bits else n
+def fromSigned (bits : Nat) (neg : Bool) (n : Nat) : Nat :=
+  if neg then (2 ^ bits - n % 2 ^ bits) % 2 ^ bits else n % 2 ^ bits
 
 mutual
 /-- value of a given type -/
